@@ -116,7 +116,9 @@ PROPS["C09"] = dict(
 PROPS["C15"] = dict(
     level="proof",
     translators=["persist.py"],
-    technique="Lean 4 theorems (deterministic prefix-reader lemma: every strict prefix of a completely consumed stream "
+    technique="Lean 4 theorems (the event shape of the real Wavefunction.read/save, regenerated by translate/persist.py, meets "
+              "the premises: one load outside any loop before the first store, one dump, directory resolved at call time; "
+              "deterministic prefix-reader lemma: every strict prefix of a completely consumed stream "
               "is refused; failed load leaves the receiver unchanged; directory resolution) + exhaustive crash-point "
               "enumeration (truncation at every byte) and chdir histories on the real library",
     text="The logic of save/read is proved on the model (prefix lemma for any deterministic reader, atomic read, location "
